@@ -296,12 +296,14 @@ def residual_class(code, fn, tree, v):
     if any(len(bs) >= 2 for q, bs in jfs) and (
             kind == "NONUNIQUE" or reason in ("ReturnWithHandlers", "HandlerAboveStack", "ReturnPending") + loop_reasons):
         return "early_exit_skips_finally"
-    # jumpfinally_open_upvalue: JumpFinally truncates to the handler height without closing the upvalues of the
-    # discarded slots (vm.rs jump_finally_impl): a Closure capturing a local inside the try body before the return
-    if reason == "PopCaptured" and any(
-            any(nm == "Closure" and nx - p > 3 and r["body"] <= p < q for (p, nm, a, b, nx) in ins for r in bs)
-            for q, bs in jfs):
-        return "jumpfinally_open_upvalue"
+    # early exit (continue / break) from a finally block of a try whose body returns: the pending return survives
+    # and is resumed by a later EndFinally
+    for r in regs:
+        if r["end"] is not None and any(r["body"] <= q < r["catch"] for q, _ in jfs):
+            for (q, nm, a, b, nx) in ins:
+                if r["fin"] <= q <= r["end"] and ((nm == "Loop" and nx - a <= r["push"]) or (nm == "Jump" and nx + a > r["end"])):
+                    if kind == "NONUNIQUE" or reason in ("ReturnWithHandlers", "HandlerAboveStack", "ReturnPending") + loop_reasons:
+                        return "early_exit_skips_finally"
     # finally_local: a finally region without catch is entered at h (normal) and h+1 (exception)
     if finally_only and has_endfinally:
         first = min(r["fin"] for r in finally_only)
@@ -310,9 +312,13 @@ def residual_class(code, fn, tree, v):
             return "finally_local"
         if reason in loop_reasons and in_loop:
             return "finally_local"
-        if reason in ("LocalOutOfRange", "StackUnderflow", "PopBelowLocals", "HandlerAboveStack", "ReturnWithHandlers",
-                      "PopCaptured") and pc >= first:
+        if reason in ("StackUnderflow", "HandlerAboveStack", "ReturnWithHandlers") and pc >= first:
             return "finally_local"
+    # umbrella rule for interactions of the open classes above (documented in notes/C04.md): the function has a
+    # finally clause or a return inside try, and the verdict is about heights / handlers / the pending return -
+    # never about decoding, constants, locals, upvalues, jump targets, captured slots or parameters
+    if (has_endfinally or jfs) and (kind == "NONUNIQUE" or reason in ("ReturnPending", "ReturnWithHandlers", "HandlerAboveStack") + loop_reasons):
+        return "early_exit_skips_finally" if jfs else "finally_local"
     return None
 
 
@@ -364,7 +370,7 @@ def echo_of(tree):
 def load_findings():
     try:
         with open(FINDINGS_PATH) as fh:
-            return {e["class"]: e for e in json.load(fh) if e.get("property") == "C04"}
+            return {e["class"]: e for e in json.load(fh) if e.get("property") == "C04" and not str(e.get("status", "")).startswith("FIXED")}
     except Exception:
         return {}
 
@@ -1086,6 +1092,8 @@ def run(ctx):
         return
 
     # ---- 1. the test scripts
+    import time as _t
+    t_start = _t.time()
     corpus = corpus_sources()
     res = compile_sources(binary, [s for _, s in corpus])
     for (name, src), r in zip(corpus, res):
@@ -1125,6 +1133,7 @@ def run(ctx):
     # ---- 4. limit family
     rows, litems, lsrc = limit_family(binary, quick)
     items += litems
+    log("[C04] compiled everything in %.1fs" % (_t.time() - t_start))
     # ---- wire self-test: the model must see exactly the bytes the compiler produced
     probe = [it for it in items if sum(len(f.code) for f in it.tree if f) < 3000][:6] + litems[:1]
     echo = yvlib.coq_eval(IMPORTS, ["echo_w %s" % wire_with(it.tree)[0] for it in probe], shard_size=2, tag="C04echo", preamble=PREAMBLE)
@@ -1132,7 +1141,10 @@ def run(ctx):
         if e != echo_of(it.tree):
             ctx.corr_broken.append("wire format: the Coq side decodes %s differently from what was sent" % it.label)
     # ---- verify everything
+    import time as _t
+    t0 = _t.time()
     judge(items, "C04")
+    log("[C04] verified %d programs in %.1fs" % (len(items), _t.time() - t0))
     nfn = 0
     hist, lenient_hist, class_hist, group_hist = {}, {}, {}, {}
     witnesses = {}
